@@ -16,8 +16,10 @@ import (
 	"errors"
 	"io"
 	"math/rand"
+	"net/netip"
 	"sort"
 	"strings"
+	"sync"
 	"testing"
 	"testing/synctest"
 	"time"
@@ -615,6 +617,9 @@ func (r *vfQsRun) step() bool {
 		switch z := rnd.Intn(100); {
 		case z < 14:
 			fin = true
+			if st.pNext == st.pHi && rnd.Intn(100) < 40 { // the FIN overtakes earlier data
+				off = st.pHi + int64(1+rnd.Intn(200))
+			}
 		case z < 20 && st.pFin >= 0: // a frame that ends exactly at the known final size
 			fin = true
 			if st.pFin >= off && st.pFin-off <= 1000 {
@@ -1074,7 +1079,92 @@ func TestVerifQuicStream(t *testing.T) {
 			env.Emit(trace, map[string]any{"e": "panic", "msg": p})
 		}
 	}
+	for i, script := range vfQsDirected {
+		trace := n + 1 + i
+		if !env.Only(trace) || env.Hung {
+			continue
+		}
+		if p := vfCatch(func() {
+			synctest.Test(t, func(t *testing.T) {
+				irb := int64(3000)
+				if i == 3 {
+					irb = 5000 // room on the stream, none on the connection
+				}
+				r := vfQsStart(t, env, trace, env.Rand(int64(trace)),
+					vfQsSetup{serverSide, irb, 6000, 65536, 1 << 20, 1 << 20, 1 << 20, 1 << 20, []string{"lb", "rb"}})
+				script(r)
+				r.finish()
+			})
+		}); p != "" {
+			env.Emit(trace, map[string]any{"e": "panic", "msg": p})
+		}
+	}
 	env.Finish(nil)
+}
+
+// vfQsDirected are short scripted scenarios appended to the seeded ones: orders of events the
+// properties single out and that a random script meets only now and then.
+var vfQsDirected = []func(r *vfQsRun){
+	// the FIN overtakes earlier data: no EOF before the gap is filled
+	func(r *vfQsRun) {
+		st := r.streams[1]
+		r.pStream(st, 0, 100, false)
+		r.pStream(st, 200, 100, true)
+		r.read(st, 4096)
+		r.read(st, 4096)
+		r.pStream(st, 100, 100, false)
+		r.read(st, 4096)
+		r.read(st, 4096)
+	},
+	// the packet with the FIN is acknowledged, the data before it is not, then the peer stops the
+	// stream: Close must not report success
+	func(r *vfQsRun) {
+		st := r.streams[0]
+		r.write(st, 3000)
+		r.closeStream(st)
+		if pns := r.unackedList(); len(pns) > 1 {
+			r.pAck(pns[len(pns)-1:])
+		}
+		r.peer(map[string]any{"e": "p_stop", "s": st.k, "code": 9}, st, debugFrameStopSending{id: st.id, code: 9})
+		r.pAck(r.unackedList())
+	},
+	// exactly at the advertised stream and connection limits (stream 3000, connection 6000), credit
+	// comes back, then one byte beyond the stream limit only
+	func(r *vfQsRun) {
+		a, b := r.streams[0], r.streams[1]
+		r.pStream(a, 2000, 1000, false) // stream limit reached
+		r.pStream(b, 2000, 1000, false) // connection limit reached
+		r.read(b, 10)
+		for _, st := range []*vfQsStream{b, a} {
+			r.pStream(st, 0, 1000, false)
+			r.pStream(st, 1000, 1000, false)
+			r.read(st, 4096)
+			r.read(st, 4096)
+		}
+		if room := r.advMax - r.peerUsed(); room > b.advWin-b.pHi {
+			r.pStream(b, b.advWin, 1, false)
+		}
+	},
+	// one byte beyond the connection limit only
+	func(r *vfQsRun) {
+		a, b := r.streams[0], r.streams[1]
+		r.pStream(a, 1500, 1000, false)
+		r.pStream(b, 2500, 1000, false) // 2500 + 3500 = 6000
+		if a.advWin > a.pHi && r.advMax == r.peerUsed() {
+			r.pStream(a, a.pHi, 1, false)
+		}
+	},
+	// a second RESET_STREAM between the highest offset received and the first final size
+	func(r *vfQsRun) {
+		st := r.streams[1]
+		r.pStream(st, 0, 50, false)
+		r.pReset(st, 100, 4)
+		r.read(st, 10)
+		r.pReset(st, 100, 4)
+		if !r.dead {
+			r.pReset(st, 70, 4)
+		}
+	},
 }
 
 // TestVerifQuicStreamLateRead runs, in its own process, the scripted scenarios in which the
@@ -1127,6 +1217,542 @@ func TestVerifQuicStreamLateRead(t *testing.T) {
 				script(r)
 				r.flush()
 				r.finish()
+			})
+		}); p != "" {
+			env.Emit(trace, map[string]any{"e": "panic", "msg": p})
+		}
+	}
+	env.Finish(nil)
+}
+
+// ---------------------------------------------------------------------------- two endpoints
+//
+// TestVerifQuicStreamPair (C19, end to end): two real Endpoints (no test hooks) joined by an
+// in-memory datagram network that the script makes drop, duplicate and hold back (reorder)
+// datagrams for a while.  The driver is the application on both sides: it writes position-
+// dependent data on every direction ("channel") of up to three streams, flushes, closes, and
+// polls non-blocking Reads on the other side; everything it observes is logged and judged by
+// specs/quicstream/TracePair.tla.  When a Close returns nil the driver reads the channel to
+// the end BEFORE delivering another datagram ("seal"): the peer must already hold all data.
+
+type vfQsDgram struct {
+	to int
+	b  []byte
+}
+
+type vfQsNet struct {
+	mu    sync.Mutex
+	queue []vfQsDgram
+	ends  [2]*vfQsNetConn
+}
+
+type vfQsNetConn struct {
+	net    *vfQsNet
+	idx    int
+	addr   netip.AddrPort
+	in     chan []byte
+	closed chan struct{}
+	once   sync.Once
+}
+
+func (c *vfQsNetConn) Close() error              { c.once.Do(func() { close(c.closed) }); return nil }
+func (c *vfQsNetConn) LocalAddr() netip.AddrPort { return c.addr }
+func (c *vfQsNetConn) Read(f func(*datagram)) {
+	for {
+		select {
+		case b := <-c.in:
+			d := newDatagram()
+			d.b = d.b[:copy(d.b, b)]
+			d.localAddr = c.addr
+			d.peerAddr = c.net.ends[1-c.idx].addr
+			f(d)
+		case <-c.closed:
+			return
+		}
+	}
+}
+func (c *vfQsNetConn) Write(d datagram) error {
+	c.net.mu.Lock()
+	defer c.net.mu.Unlock()
+	c.net.queue = append(c.net.queue, vfQsDgram{to: 1 - c.idx, b: append([]byte(nil), d.b...)})
+	return nil
+}
+
+func (n *vfQsNet) take() (vfQsDgram, bool) {
+	n.mu.Lock()
+	defer n.mu.Unlock()
+	if len(n.queue) == 0 {
+		return vfQsDgram{}, false
+	}
+	d := n.queue[0]
+	n.queue = n.queue[1:]
+	return d, true
+}
+
+func (n *vfQsNet) deliver(d vfQsDgram) {
+	select {
+	case n.ends[d.to].in <- d.b:
+	case <-n.ends[d.to].closed:
+	}
+	synctest.Wait()
+}
+
+// one direction of one stream
+type vfQsChan struct {
+	c       int // channel number (1-based)
+	w, r    *Stream
+	rside   int // endpoint index of the reader
+	wr      int64
+	call    *vfQsPCall
+	closedW bool
+	eof     bool
+	dead    bool // the reader saw an error
+}
+
+type vfQsPCall struct {
+	op    string
+	ch    *vfQsChan
+	res   int
+	err   error
+	donec chan struct{}
+	done  bool
+}
+
+type vfQsPair struct {
+	env   *vfEnv
+	t     int
+	rnd   *rand.Rand
+	net   *vfQsNet
+	conns [2]*Conn
+	chans []*vfQsChan
+	want  map[int64][]*vfQsChan // stream ID -> channels whose reader stream is still unknown
+	calls []*vfQsPCall
+	held  []vfQsDgram
+	fault bool
+	stats [4]int
+	// progress bookkeeping for the end of a script
+	events   int
+	maxWrite int
+}
+
+func (p *vfQsPair) emit(ev map[string]any) { p.events++; p.env.Emit(p.t, ev) }
+
+// poll logs returned calls, accepts new streams and reads what is readable.  A Close that
+// returned nil is followed by reading its channel dry and a "seal" line, before anything else
+// is delivered.
+func (p *vfQsPair) poll() {
+	synctest.Wait()
+	for side := 0; side < 2; side++ {
+		for {
+			s, err := p.conns[side].AcceptStream(canceledContext())
+			if err != nil {
+				break
+			}
+			s.SetReadContext(canceledContext())
+			for _, ch := range p.want[s.ID()] {
+				if ch.rside == side {
+					ch.r = s
+				} else {
+					ch.w = s
+				}
+			}
+		}
+	}
+	var sealed []*vfQsChan
+	for _, c := range p.calls {
+		if c.done {
+			continue
+		}
+		select {
+		case <-c.donec:
+			c.done = true
+			c.ch.call = nil
+			msg := ""
+			if c.err != nil {
+				msg = c.err.Error()
+			}
+			if c.op == "write" {
+				c.ch.wr += int64(c.res)
+				p.emit(map[string]any{"e": "w_ret", "c": c.ch.c, "n": c.res, "err": msg})
+			} else {
+				p.emit(map[string]any{"e": "w_cret", "c": c.ch.c, "err": msg})
+				if c.err == nil {
+					sealed = append(sealed, c.ch)
+				}
+			}
+		default:
+		}
+	}
+	for _, ch := range sealed {
+		p.readAll(ch)
+		p.emit(map[string]any{"e": "seal", "c": ch.c})
+	}
+	for _, ch := range p.chans {
+		p.readAll(ch)
+	}
+}
+
+func (p *vfQsPair) readAll(ch *vfQsChan) {
+	for i := 0; i < 64 && ch.r != nil && !ch.eof && !ch.dead; i++ {
+		mx := 1 + p.rnd.Intn(3000)
+		b := make([]byte, mx)
+		n, err := ch.r.Read(b)
+		res := "ok"
+		switch {
+		case err == nil:
+		case err == io.EOF:
+			res = "eof"
+			ch.eof = true
+		case errors.Is(err, context.Canceled):
+			res = "block"
+		default:
+			res = "other:" + err.Error()
+			ch.dead = true
+		}
+		if res == "block" {
+			return // nothing is logged for a Read that found nothing
+		}
+		ev := map[string]any{"e": "r_read", "c": ch.c, "max": mx, "n": n, "res": res, "b0": 0, "b1": 0, "cont": vfQsCont(b[:n], 7)}
+		if n > 0 {
+			ev["b0"], ev["b1"] = int(b[0]), int(b[n-1])
+		}
+		p.emit(ev)
+		synctest.Wait()
+	}
+}
+
+// step moves one datagram (with the scripted fault, while faults are on) or lets time pass.
+func (p *vfQsPair) step() {
+	if len(p.held) > 0 && (!p.fault || p.rnd.Intn(3) == 0) {
+		d := p.held[0]
+		p.held = p.held[1:]
+		p.net.deliver(d)
+		return
+	}
+	d, ok := p.net.take()
+	if !ok {
+		// nothing in flight: let timers (ack delay, loss, PTO) fire
+		time.Sleep(time.Duration(5+p.rnd.Intn(60)) * time.Millisecond)
+		synctest.Wait()
+		return
+	}
+	fate := 0
+	if p.fault {
+		switch x := p.rnd.Intn(100); {
+		case x < 12:
+			fate = 1 // drop
+		case x < 20:
+			fate = 2 // duplicate
+		case x < 32:
+			fate = 3 // hold back
+		}
+	}
+	p.stats[fate]++
+	switch fate {
+	case 0:
+		p.net.deliver(d)
+	case 1:
+	case 2:
+		p.net.deliver(d)
+		p.net.deliver(d)
+	case 3:
+		p.held = append(p.held, d)
+	}
+}
+
+func (p *vfQsPair) app() bool {
+	rnd := p.rnd
+	var open []*vfQsChan
+	for _, ch := range p.chans {
+		if ch.w != nil && ch.call == nil && !ch.closedW {
+			open = append(open, ch)
+		}
+	}
+	if len(open) == 0 {
+		return false
+	}
+	ch := open[rnd.Intn(len(open))]
+	switch x := rnd.Intn(100); {
+	case x < 60:
+		n := []int{0, 1, 17, 300, 1200, 5000, 20000, 70000}[rnd.Intn(8)]
+		if n > 1 {
+			n = 1 + rnd.Intn(n)
+		}
+		n = min(n, p.maxWrite) // a tiny window costs one round trip per window
+		b := make([]byte, n)
+		for i := range b {
+			b[i] = vfQsPat(ch.c, ch.wr+int64(i))
+		}
+		c := &vfQsPCall{op: "write", ch: ch, donec: make(chan struct{})}
+		p.calls = append(p.calls, c)
+		ch.call = c
+		p.emit(map[string]any{"e": "w_call", "c": ch.c, "n": n})
+		w := ch.w
+		go func() {
+			defer close(c.donec)
+			c.res, c.err = w.Write(b)
+		}()
+	case x < 75:
+		err := ch.w.Flush()
+		p.emit(map[string]any{"e": "w_flush", "c": ch.c, "ok": err == nil})
+	default:
+		if rnd.Intn(2) == 0 { // some last bytes, closed at once: the FIN travels with or ahead of data
+			n := 1 + rnd.Intn(min(p.maxWrite, 4000))
+			b := make([]byte, n)
+			for i := range b {
+				b[i] = vfQsPat(ch.c, ch.wr+int64(i))
+			}
+			c := &vfQsPCall{op: "write", ch: ch, donec: make(chan struct{})}
+			p.calls = append(p.calls, c)
+			ch.call = c
+			p.emit(map[string]any{"e": "w_call", "c": ch.c, "n": n})
+			w := ch.w
+			go func() {
+				defer close(c.donec)
+				c.res, c.err = w.Write(b)
+			}()
+			p.poll()
+			if ch.call != nil {
+				return true // blocked: closed later
+			}
+		}
+		ch.closedW = true
+		// Close (which also closes reading) only when nothing more can arrive on this stream
+		rev := p.reverse(ch)
+		if rev == nil || rev.eof {
+			c := &vfQsPCall{op: "close", ch: ch, donec: make(chan struct{})}
+			p.calls = append(p.calls, c)
+			ch.call = c
+			p.emit(map[string]any{"e": "w_ccall", "c": ch.c})
+			w := ch.w
+			go func() {
+				defer close(c.donec)
+				c.err = w.Close()
+			}()
+		} else {
+			p.emit(map[string]any{"e": "w_cw", "c": ch.c})
+			ch.w.CloseWrite()
+		}
+	}
+	return true
+}
+
+func (p *vfQsPair) handled() int { return p.stats[0] + p.stats[1] + p.stats[2] + p.stats[3] }
+
+// closeAll closes every channel that is still open for writing and reports whether everything
+// is finished: all channels read to EOF (or failed) and no call pending.
+func (p *vfQsPair) closeAll() bool {
+	done := true
+	for _, ch := range p.chans {
+		if ch.w == nil {
+			done = false // the reverse direction of a stream the other side has not seen yet
+			continue
+		}
+		if !ch.closedW && ch.call == nil {
+			ch.closedW = true
+			rev := p.reverse(ch)
+			if rev == nil || rev.eof {
+				c := &vfQsPCall{op: "close", ch: ch, donec: make(chan struct{})}
+				p.calls = append(p.calls, c)
+				ch.call = c
+				p.emit(map[string]any{"e": "w_ccall", "c": ch.c})
+				w := ch.w
+				go func() {
+					defer close(c.donec)
+					c.err = w.Close()
+				}()
+			} else {
+				p.emit(map[string]any{"e": "w_cw", "c": ch.c})
+				ch.w.CloseWrite()
+			}
+		}
+		if !ch.eof && !ch.dead || ch.call != nil || !ch.closedW {
+			done = false
+		}
+	}
+	return done
+}
+
+// reverse returns the channel of the other direction of ch's stream (nil for a unidirectional one).
+func (p *vfQsPair) reverse(ch *vfQsChan) *vfQsChan {
+	for _, o := range p.chans {
+		if o != ch && o.w != nil && ch.r != nil && o.w == ch.r {
+			return o
+		}
+		if o != ch && o.r != nil && o.r == ch.w {
+			return o
+		}
+	}
+	return nil
+}
+
+func vfQsPairTrace(t *testing.T, env *vfEnv, trace int, rnd *rand.Rand, nops int) {
+	bufs := []int64{100, 1200, 5000, 65536, 0}
+	pickv := func() int64 { return bufs[rnd.Intn(len(bufs))] }
+	net := &vfQsNet{}
+	var eps [2]*Endpoint
+	var cfgs [2]*Config
+	for i := 0; i < 2; i++ {
+		side := serverSide
+		if i == 1 {
+			side = clientSide
+		}
+		net.ends[i] = &vfQsNetConn{net: net, idx: i, addr: netip.MustParseAddrPort([]string{"127.0.0.1:443", "127.0.0.1:1234"}[i]),
+			in: make(chan []byte), closed: make(chan struct{})}
+		cfgs[i] = &Config{TLSConfig: newTestTLSConfig(side), MaxStreamReadBufferSize: pickv(), MaxStreamWriteBufferSize: pickv(),
+			MaxConnReadBufferSize: pickv()}
+		lc := cfgs[i]
+		if i == 1 {
+			lc = nil
+		}
+		e, err := newEndpoint(net.ends[i], lc, nil)
+		if err != nil {
+			t.Fatal(err)
+		}
+		eps[i] = e
+	}
+	p := &vfQsPair{env: env, t: trace, rnd: rnd, net: net, want: map[int64][]*vfQsChan{}, maxWrite: 70000}
+	for i := 0; i < 2; i++ {
+		for _, v := range []int64{cfgs[i].MaxStreamReadBufferSize, cfgs[i].MaxStreamWriteBufferSize, cfgs[i].MaxConnReadBufferSize} {
+			if v > 0 {
+				p.maxWrite = min(p.maxWrite, int(40*v))
+			}
+		}
+	}
+	defer func() {
+		for _, c := range p.calls {
+			_ = c
+		}
+		for i := 0; i < 2; i++ {
+			eps[i].Close(canceledContext())
+			net.ends[i].Close()
+		}
+		synctest.Wait()
+	}()
+	// handshake over a perfect network
+	type dialRes struct {
+		c   *Conn
+		err error
+	}
+	dialc := make(chan dialRes, 1)
+	go func() {
+		c, err := eps[1].Dial(context.Background(), "udp", "127.0.0.1:443", cfgs[1])
+		dialc <- dialRes{c, err}
+	}()
+	for i := 0; i < 400 && p.conns[1] == nil; i++ {
+		p.step()
+		select {
+		case r := <-dialc:
+			if r.err != nil {
+				p.emit(map[string]any{"e": "hdr", "nch": 0})
+				p.emit(map[string]any{"e": "dead", "why": "dial: " + r.err.Error()})
+				return
+			}
+			p.conns[1] = r.c
+		default:
+		}
+	}
+	if p.conns[1] == nil {
+		p.emit(map[string]any{"e": "hdr", "nch": 0})
+		p.emit(map[string]any{"e": "dead", "why": "handshake did not complete"})
+		return
+	}
+	var err error
+	for i := 0; i < 400 && p.conns[0] == nil; i++ {
+		if sc, aerr := eps[0].Accept(canceledContext()); aerr == nil {
+			p.conns[0] = sc
+		} else {
+			err = aerr
+			p.step()
+		}
+	}
+	if p.conns[0] == nil {
+		p.emit(map[string]any{"e": "hdr", "nch": 0})
+		p.emit(map[string]any{"e": "dead", "why": "accept: " + err.Error()})
+		return
+	}
+	// streams: created by either side, bidirectional ones carry data both ways
+	nstreams := 1 + rnd.Intn(3)
+	for k := 0; k < nstreams; k++ {
+		side := rnd.Intn(2)
+		var s *Stream
+		bidi := rnd.Intn(2) == 0
+		if bidi {
+			s, err = p.conns[side].NewStream(context.Background())
+		} else {
+			s, err = p.conns[side].NewSendOnlyStream(context.Background())
+		}
+		if err != nil {
+			p.emit(map[string]any{"e": "hdr", "nch": 0})
+			p.emit(map[string]any{"e": "dead", "why": "new stream: " + err.Error()})
+			return
+		}
+		s.SetReadContext(canceledContext())
+		fwd := &vfQsChan{c: len(p.chans) + 1, w: s, rside: 1 - side}
+		p.chans = append(p.chans, fwd)
+		p.want[s.ID()] = append(p.want[s.ID()], fwd)
+		if bidi {
+			back := &vfQsChan{c: len(p.chans) + 1, r: s, rside: side}
+			p.chans = append(p.chans, back)
+			p.want[s.ID()] = append(p.want[s.ID()], back)
+		}
+	}
+	p.emit(map[string]any{"e": "hdr", "nch": len(p.chans)})
+	p.fault = true
+	for i := 0; i < nops; i++ {
+		if rnd.Intn(100) < 40 {
+			p.app()
+		} else {
+			p.step()
+		}
+		p.poll()
+	}
+	// every channel is closed; the faults go on for a while, then the network heals and it and
+	// the clock run until everything is done
+	budget := p.handled() + 50 + rnd.Intn(600)
+	idle := 0
+	for round := 0; round < 60000 && idle < 300; round++ {
+		if p.fault && p.handled() >= budget {
+			p.fault = false
+		}
+		if p.closeAll() {
+			break
+		}
+		before, moved := p.events, p.handled()
+		p.step()
+		p.poll()
+		if p.events != before || p.handled() != moved {
+			idle = 0
+		} else {
+			idle++ // only time passed and nothing happened: 300 in a row is a stall ("final" says so)
+		}
+	}
+	pending := 0
+	for _, c := range p.calls {
+		if !c.done {
+			pending++
+		}
+	}
+	p.emit(map[string]any{"e": "final", "pending": pending,
+		"net": map[string]any{"delivered": p.stats[0], "dropped": p.stats[1], "duplicated": p.stats[2], "held": p.stats[3]}})
+}
+
+func TestVerifQuicStreamPair(t *testing.T) {
+	env := vfLoad(t)
+	if env == nil {
+		return
+	}
+	n := env.Int("traces", 10)
+	nops := env.Int("ops", 150)
+	for k := 1; k <= n; k++ {
+		if !env.Only(k) {
+			continue
+		}
+		trace := k
+		rnd := env.Rand(int64(5000 + k))
+		if p := vfCatch(func() {
+			synctest.Test(t, func(t *testing.T) {
+				vfQsPairTrace(t, env, trace, rnd, nops)
 			})
 		}); p != "" {
 			env.Emit(trace, map[string]any{"e": "panic", "msg": p})
